@@ -297,8 +297,9 @@ def join(a: Val, b: Val) -> Val:
     if a.items is not None and b.items is not None and len(a.items) == len(b.items):
         items = [join(x, y) for x, y in zip(a.items, b.items)]
     elif a.tags.get("kind") == "list" and b.tags.get("kind") == "list":
-        a = a.copy(items=None)
-        b = b.copy(items=None)
+        if not (a.items is not None and b.items is not None and len(a.items) == len(b.items)):
+            a = a.copy(items=None)
+            b = b.copy(items=None)
     elif a.items is not None or b.items is not None:
         a2, b2 = a.flat(), b.flat()
         if a2 is not a or b2 is not b:
